@@ -264,6 +264,15 @@ def fixed_requests(tmp):
         reqs.append(({'kind': 'assist', 'src': cyc + tail, 'pos': list(pos), 'filename': cfn, 'roots': [suppview.FIXTURES]}, True, 3))
     reqs.append(({'kind': 'location', 'src': cyc + 'cyc_a.cb', 'pos': [5, 8], 'filename': cfn, 'roots': [suppview.FIXTURES]}, True, 2))
     reqs.append(({'kind': 'lint', 'src': cyc + 'print(ca, cb, e_own)\n', 'filename': cfn, 'roots': [suppview.FIXTURES]}, True, 3))
+    # names that differ only in case (a case-insensitive sort key would leave their order to set iteration)
+    case_mod = ('NAME = 1\nName = 2\nname = 3\nQueue = 4\nqueue = 5\nQUEUE = 6\n\n\nclass Holder(object):\n    VALUE = 1\n    Value = 2\n    value = 3\n'
+                '    def Run(self):\n        self.STATE = 1\n        self.State = 2\n        self.state = 3\n    def run(self):\n        pass\n\n\nholder = Holder()\n')
+    with open(os.path.join(tmp, 'casemod.py'), 'w') as f:
+        f.write(case_mod)
+    for src, pos in (('import casemod\ncasemod.', [2, 8]), ('import casemod\ncasemod.Holder.', [2, 15]), ('import casemod\ncasemod.holder.', [2, 15]),
+                     ('from casemod import ', [1, 20]), ('from casemod import Na', [1, 22]), (case_mod + 'na', [case_mod.count('\n') + 1, 2]),
+                     (case_mod + 'holder.', [case_mod.count('\n') + 1, 7]), ('import tokenize\ntokenize.', [2, 9]), ('import token\ntoken.N', [2, 7])):
+        reqs.append(({'kind': 'assist', 'src': src, 'pos': pos, 'filename': rfn, 'roots': [tmp]}, True, 3))
     c04.write_mods(tmp)
     for name, src in c04.MODS.items():
         path = os.path.join(tmp, name + '.py')
